@@ -2,6 +2,12 @@ import NixModel.Lemmas.C20Hist
 
 /-!
 # C20 — link lists and deletion on the copy's side are local updates; histories
+
+Deletion (`contDel`) is by object since the repair `fix: deleting an entity also deleted every same-id
+copy file-wide`: `delete_all` is handed the node keys of the item / of its section or source subtree
+(`subtreeKeys`), all of which lie on the side the call is addressed to (`subtreeKeys_side`: the side is
+closed under links), so `lu_deleteObjs` applies with no hypothesis about ids. `lu_step` / `lu_run`
+therefore hold for every addressed call — deletions of every kind included — for both id policies.
 -/
 namespace Nix.Store.C20
 open Nix.Store Nix.Store.Graph Nix.Store.Lemmas
@@ -99,23 +105,22 @@ theorem contGet_mem {g : Graph} {c : Cont} {key : Key} {l : String × Nat} (h : 
     | exact getByIdOrName_mem ‹_›
     | exact featScan_mem ‹_›
 
-/-- an id carried by a node of the side -/
-def NewId (S : Nat → Prop) (g : Graph) (i : String) : Prop := ∃ k, S k ∧ g.entityId k = some i
-
-theorem bfsIds_new {g : Graph} (hI : SideInv S M g) (sub : String) :
-    ∀ (fuel : Nat) (queue : List Nat) (acc : List String), (∀ q ∈ queue, S q) → (∀ i ∈ acc, NewId S g i) →
-      ∀ i ∈ bfsIds g sub fuel queue acc, NewId S g i := by
+/-- the breadth-first traversal of a section / source subtree that starts on the side stays on the side
+(the side is closed under links) -/
+theorem bfsKeys_side {g : Graph} (hI : SideInv S M g) (sub : String) :
+    ∀ (fuel : Nat) (queue : List Nat) (acc : List Nat), (∀ q ∈ queue, S q) → (∀ q ∈ acc, S q) →
+      ∀ q ∈ bfsKeys g sub fuel queue acc, S q := by
   intro fuel
   induction fuel with
-  | zero => intro queue acc _ ha i hi; unfold bfsIds at hi; exact ha i hi
+  | zero => intro queue acc _ ha q hq; unfold bfsKeys at hq; exact ha q hq
   | succ fuel ih =>
-    intro queue acc hq ha i hi
+    intro queue acc hq ha x hx
     cases queue with
-    | nil => unfold bfsIds at hi; exact ha i hi
+    | nil => unfold bfsKeys at hx; exact ha x hx
     | cons k queue =>
-      unfold bfsIds at hi
+      unfold bfsKeys at hx
       have hk : S k := hq k List.mem_cons_self
-      apply ih _ _ _ _ i hi
+      apply ih _ _ _ _ x hx
       · intro q hq'
         rcases List.mem_append.mp hq' with h | h
         · exact hq q (List.mem_cons_of_mem _ h)
@@ -126,30 +131,18 @@ theorem bfsIds_new {g : Graph} (hI : SideInv S M g) (sub : String) :
             obtain ⟨l, hl, e⟩ := List.mem_map.mp h
             rw [← e]
             exact hI.closed c (child_ge hI hk hc) l hl
-      · intro i' hi'
-        cases hid : g.entityId k with
-        | none => rw [hid] at hi'; exact ha i' hi'
-        | some j =>
-          rw [hid] at hi'
-          rcases List.mem_append.mp hi' with h | h
-          · exact ha i' h
-          · simp only [List.mem_singleton] at h
-            exact ⟨k, hk, by rw [hid, h]⟩
+      · intro q hq'
+        rcases List.mem_append.mp hq' with h | h
+        · exact ha q h
+        · simp only [List.mem_singleton] at h
+          rw [h]; exact hk
 
-theorem subtreeIds_new {g : Graph} (hI : SideInv S M g) (sub : String) {k : Nat} (hk : S k) :
-    ∀ i ∈ subtreeIds g sub k, NewId S g i :=
-  bfsIds_new hI sub _ [k] [] (fun q hq => by simp only [List.mem_singleton] at hq; rw [hq]; exact hk)
+/-- the objects of the subtree of a section / source of the side (what `find_sections()` /
+`find_sources()` hands to `delete_all`) all lie on the side -/
+theorem subtreeKeys_side {g : Graph} (hI : SideInv S M g) (sub : String) {k : Nat} (hk : S k) :
+    ∀ q ∈ subtreeKeys g sub k, S q :=
+  bfsKeys_side hI sub _ [k] [] (fun q hq => by simp only [List.mem_singleton] at hq; rw [hq]; exact hk)
     (fun _ h => by cases h)
-
-/-- no node below `N` carries an id of the side -/
-theorem old_not_newId {g : Graph} (hD : IdInv S M A g) {ids : List String} (hids : ∀ i ∈ ids, NewId S g i) :
-    ∀ x, ¬ S x → ∀ i, g.entityId x = some i → i ∉ ids := by
-  intro x hx i hi hmem
-  obtain ⟨k, hk, hki⟩ := hids i hmem
-  obtain ⟨j, e, hA⟩ := hD.restIds x hx i hi
-  obtain ⟨j', e', hnA⟩ := hD.sideIds k hk i hki
-  have := idStr_inj (e.symm.trans e')
-  exact hnA (this ▸ hA)
 
 theorem lu_h5Delete {g g' : Graph} {grp parent : Nat} {lname x : String} {depth : Nat} {die : Bool}
     (hg : S grp) (hp : S parent) (hop : h5Delete g grp parent lname depth x die = .ok g') :
@@ -164,23 +157,12 @@ theorem lu_h5Delete {g g' : Graph} {grp parent : Nat} {lname x : String} {depth 
       · cases hop; exact (lu_delLink g _ hg).trans (lu_delLink _ _ hp)
       · cases hop; exact lu_delLink g _ hg
 
-/-- global deletion of the id of a node of the side, if it has one -/
-theorem lu_delOne {g g' : Graph} (hD : IdInv S M A g) {k : Nat} (hk : S k)
-    (hop : (match g.entityId k with | some i => Except.ok (g.deleteAll [i]) | none => (Except.ok g : Except Err Graph))
-      = .ok g') : LocalUpd S M g g' := by
-  cases hid : g.entityId k with
-  | none => rw [hid] at hop; cases hop; exact LocalUpd.refl g
-  | some i =>
-    rw [hid] at hop
-    cases hop
-    exact lu_deleteAll g _ (old_not_newId hD (fun i' h => by
-      simp only [List.mem_singleton] at h; rw [h]; exact ⟨k, hk, hid⟩))
-
-/-- `Container.__delitem__` (all flavours) on a container of a node of the side. The global
-deletions by id need `IdInv`; removing an entry of a link list does not. -/
+/-- `Container.__delitem__` (all flavours) on a container of a node of the side: the file-wide
+`delete_all` is handed objects of the side only (the item; its section subtree; its source subtree),
+removing an entry of a link list touches the list's group and its owner. No hypothesis about ids:
+deletion is by object. -/
 theorem lu_contDel {g g' : Graph} (hI : SideInv S M g) {c : Cont} {key : Key} (ho : S c.owner.key)
     (hnode : c.node = g.child? c.owner.key c.cname) (hkey : ∀ k, key = .ent k → S k)
-    (hD : IdInv S M A g ∨ c.info.flavour = .link ∨ c.info.flavour = .sourceLink)
     (hop : contDel g c key = .ok g') : LocalUpd S M g g' := by
   unfold contDel at hop
   simp only at hop
@@ -208,42 +190,24 @@ theorem lu_contDel {g g' : Graph} (hI : SideInv S M g) {c : Cont} {key : Key} (h
           simp only [Except.map, Except.ok.injEq] at hk
           have := contGet_mem hget
           rw [hnode] at this; rw [← hk]; exact cLinks_ge hI ho this
+    have hone : ∀ q ∈ [k], S q := fun q hq => by simp only [List.mem_singleton] at hq; rw [hq]; exact hkN
     split at hop
     · cases hop
     · cases hfl : c.info.flavour
       all_goals (rw [hfl] at hop; simp only at hop)
       · -- plain
-        have hDD : IdInv S M A g := by
-          rcases hD with h | h | h
-          · exact h
-          · rw [hfl] at h; cases h
-          · rw [hfl] at h; cases h
-        exact lu_delOne hDD hkN hop
+        cases hop
+        exact lu_deleteObjs g _ hone
       · -- sections
-        have hDD : IdInv S M A g := by
-          rcases hD with h | h | h
-          · exact h
-          · rw [hfl] at h; cases h
-          · rw [hfl] at h; cases h
         cases hop
-        exact lu_deleteAll g _ (old_not_newId hDD (subtreeIds_new hI "sections" hkN))
+        exact lu_deleteObjs g _ (subtreeKeys_side hI "sections" hkN)
       · -- sources
-        have hDD : IdInv S M A g := by
-          rcases hD with h | h | h
-          · exact h
-          · rw [hfl] at h; cases h
-          · rw [hfl] at h; cases h
         cases hop
-        refine lu_deleteAll g _ (old_not_newId hDD ?_)
-        intro i hi
-        rcases List.mem_append.mp hi with h | h
-        · exact subtreeIds_new hI "sources" hkN i h
-        · cases hid : g.entityId k with
-          | none => rw [hid] at h; cases h
-          | some j =>
-            rw [hid] at h
-            simp only [List.mem_singleton] at h
-            rw [h]; exact ⟨k, hkN, hid⟩
+        refine lu_deleteObjs g _ ?_
+        intro q hq
+        rcases List.mem_append.mp hq with h | h
+        · exact subtreeKeys_side hI "sources" hkN q h
+        · exact hone q h
       · -- link
         split at hop
         · rename_i cn i hcn _
@@ -255,12 +219,8 @@ theorem lu_contDel {g g' : Graph} (hI : SideInv S M g) {c : Cont} {key : Key} (h
           exact lu_h5Delete (child_ge hI ho (hnode ▸ hcn)) ho hop
         · cases hop
       · -- features
-        have hDD : IdInv S M A g := by
-          rcases hD with h | h | h
-          · exact h
-          · rw [hfl] at h; cases h
-          · rw [hfl] at h; cases h
-        exact lu_delOne hDD hkN hop
+        cases hop
+        exact lu_deleteObjs g _ hone
 
 /-! ## calls addressed to the side, histories -/
 
@@ -288,14 +248,6 @@ def Addressed (S : Nat → Prop) (g : Graph) : Op → Prop
   | .setRole o _ t => ResolvesNew S g o ∧ OptNew S g t
   | .setAttr p _ _ => ResolvesNew S g p
   | .reopen => True
-
-/-- deletion through a plain / section / source / feature container: `delete_all` by id, file-wide -/
-def isGlobalDel (g : Graph) : Op → Bool
-  | .del o c _ =>
-    match openCont g o c with
-    | some cont => !(cont.info.flavour == .link || cont.info.flavour == .sourceLink)
-    | none => false
-  | _ => false
 
 theorem openCont_spec {g : Graph} {o : Path} {cname : String} {cont : Cont} (h : openCont g o cname = some cont) :
     ∃ l, resolve g rootLoc o = some l ∧ cont.owner = l ∧ cont.cname = cname ∧ cont.node = g.child? l.key cname := by
@@ -331,8 +283,8 @@ theorem resolveKeyArg_ent {g : Graph} {ka : KeyArg} {key : Key} (hk : KeyNew S g
     rw [← h]; exact hN
 
 /-- **one call**: a call addressed to the side is a local update -/
-theorem lu_step {g : Graph} (hI : SideInv S M g) {op : Op} (ha : Addressed S g op)
-    (hD : IdInv S M A g ∨ isGlobalDel g op = false) : LocalUpd S M g (step g op) := by
+theorem lu_step {g : Graph} (hI : SideInv S M g) {op : Op} (ha : Addressed S g op) :
+    LocalUpd S M g (step g op) := by
   unfold step
   split
   · rename_i g' happ
@@ -379,12 +331,7 @@ theorem lu_step {g : Graph} (hI : SideInv S M g) {op : Op} (ha : Addressed S g o
           simp only [Option.some.injEq] at happ
           obtain ⟨l', hl', ho, hcn, hnode⟩ := openCont_spec hoc
           rw [hl] at hl'; cases hl'
-          have hD' : IdInv S M A g ∨ cont.info.flavour = .link ∨ cont.info.flavour = .sourceLink := by
-            rcases hD with h | h
-            · exact .inl h
-            · simp only [isGlobalDel, hoc, Bool.not_eq_eq_eq_not, Bool.not_false, Bool.or_eq_true, beq_iff_eq] at h
-              exact .inr h
-          exact lu_contDel hI (by rw [ho]; exact hN) (by rw [hnode, ho, hcn]) (resolveKeyArg_ent hk hrk) hD' happ
+          exact lu_contDel hI (by rw [ho]; exact hN) (by rw [hnode, ho, hcn]) (resolveKeyArg_ent hk hrk) happ
     | append o c ka =>
       obtain ⟨⟨l, hl, hN⟩, hk⟩ := ha
       simp only [apply] at happ
@@ -418,28 +365,29 @@ theorem lu_step {g : Graph} (hI : SideInv S M g) {op : Op} (ha : Addressed S g o
       rw [← happ]; exact LocalUpd.refl g
   · exact LocalUpd.refl g
 
-/-- every call of the history is addressed to the side *in the state it is made in*, and the global
-deletions among them happen while `hid` holds (`hid = True`: the ids of the two sides are disjoint) -/
-def AddressedAll (S : Nat → Prop) (globalDelOk : Bool) : Graph → List Op → Prop
+/-- every call of the history is addressed to the side *in the state it is made in* (deletions of every
+kind included: no side condition on ids) -/
+def AddressedAll (S : Nat → Prop) : Graph → List Op → Prop
   | _, [] => True
-  | g, op :: ops =>
-    Addressed S g op ∧ (globalDelOk = true ∨ isGlobalDel g op = false) ∧ AddressedAll S globalDelOk (step g op) ops
+  | g, op :: ops => Addressed S g op ∧ AddressedAll S (step g op) ops
 
 /-- **histories**: any sequence of calls addressed to the side is a local update -/
-theorem lu_run {gd : Bool} : ∀ (ops : List Op) {g : Graph}, SideInv S M g → (gd = true → IdInv S M A g) →
-    AddressedAll S gd g ops → LocalUpd S M g (run g ops) := by
+theorem lu_run : ∀ (ops : List Op) {g : Graph}, SideInv S M g →
+    AddressedAll S g ops → LocalUpd S M g (run g ops) := by
   intro ops
   induction ops with
-  | nil => intro g _ _ _; exact LocalUpd.refl g
+  | nil => intro g _ _; exact LocalUpd.refl g
   | cons op ops ih =>
-    intro g hI hD ha
-    obtain ⟨h1, h2, h3⟩ := ha
-    have hs : LocalUpd S M g (step g op) := by
-      apply lu_step hI h1
-      rcases h2 with h | h
-      · exact .inl (hD h)
-      · exact .inr h
+    intro g hI ha
+    obtain ⟨h1, h3⟩ := ha
+    have hs : LocalUpd S M g (step g op) := lu_step hI h1
     show LocalUpd S M g (run (step g op) ops)
-    exact hs.trans (ih (hs.inv hI) (fun h => hs.idInv (hD h)) h3)
+    exact hs.trans (ih (hs.inv hI) h3)
+
+/-- the id invariant, where it holds at the start, holds after the history too (regenerated ids stay
+apart from the ids of the other side whatever is done on the side) -/
+theorem idInv_run (ops : List Op) {g : Graph} (hI : SideInv S M g) (hD : IdInv S M A g)
+    (ha : AddressedAll S g ops) : IdInv S M A (run g ops) :=
+  (lu_run ops hI ha).idInv hD
 
 end Nix.Store.C20
